@@ -174,6 +174,29 @@ def verus_obligations(prop, unit_name, tier):
         o = Ob('verus:%s::%s' % (unit_name, fname), 'verus/z3', 'lemma')
         verdict_for(fname, o)
         obs.append(o)
+    # R13, second attempt: Z3's default theories do not relate the bit-level and the arithmetic form of the same value
+    # (x & 31 vs x % 32, x >> 3 vs x / 8, ...), so an equivalent rewrite of such an expression can fail a proof that holds.
+    # Before a failed function obligation is reported, the unit is generated once more with bridge lemmas (each proved by
+    # Verus' bit-vector mode) for the literal masks / shifts / powers of two of exactly the failing functions.  Only sound
+    # facts are added: an obligation discharged now is proved; one that still fails is reported as before.
+    failing = [o for o in obs if o.verdict == 'refuted' and o.kind == 'contract']
+    if failing and os.environ.get('VERIF_NO_RETRY') != '1':
+        names = set()
+        for o in failing:
+            n = o.name.split('::')[-1]
+            names.add(re.sub(r'_case\d+$', '', n))
+        res2, unit2 = verus_run.run_unit(unit_name, rlimit=conf.get('rlimit'), auto_bits=sorted(names))
+        if unit2 is not None and res2['status'] == 'ok' and any(n.startswith('R13') for n in res2['notes']):
+            fns2 = res2['functions']
+            for o in failing:
+                q = o.name[len('verus:%s::' % unit_name):]
+                fr = fns2.get(q)
+                if fr is not None and (fr.success is None or fr.success is True):
+                    o.verdict = 'discharged'
+                    o.reason = 'discharged on the second attempt, with generated bit-vector bridge lemmas (R13) for ' + ', '.join(sorted(names))
+                    o.detail = ''
+                    o.time_s += fr.time_us / 1e6
+            res['notes'] = list(res['notes']) + ['second attempt with R13 bridge lemmas for: ' + ', '.join(sorted(names))]
     return obs, res, unit
 
 
@@ -268,6 +291,26 @@ def run_property(prop, tier, seed):
             cmds.append(info.get('cmd', ''))
             assumptions += info.get('assumptions', [])
             notes += info.get('notes', [])
+    # Twin rule: a function whose whole contract is also decided by a COMPLETE Kani harness over the real function (all
+    # inputs, loop-free) has a second, bit-precise opinion.  If the Verus proof of such a function fails although its twin
+    # passes on the same tree, the failure is the proof's (hints that no longer fit a refactored body), not the code's: the
+    # obligation is reported as undecided.  If the twin fails too it is a violation, with the twin's counterexample.
+    for o in obs:
+        if o.verdict != 'refuted' or not o.name.startswith('verus:'):
+            continue
+        q = o.name.split('::', 1)[-1]
+        q = re.sub(r'_case\d+$', '', q)
+        if q not in registry.TWINS:
+            continue
+        twin, twin_prop = registry.TWINS[q]
+        from . import kani_run
+        tobs, tinfo = kani_run.run_group(twin_prop, twin, tier, seed)
+        if tobs and all(t.verdict == 'discharged' for t in tobs):
+            o.verdict = 'undecided'
+            o.reason += ' [the complete Kani twin %s of this contract passes on the same tree: proof failure, not a counterexample]' % twin
+            notes.append('twin rule applied to %s (twin %s passes)' % (o.name, twin))
+        elif tobs and any(t.verdict == 'refuted' for t in tobs) and not any(x.name == t.name for t in tobs for x in obs):
+            obs += [t for t in tobs if t.verdict == 'refuted']
     known = load_known()
     kf_lines = []
     violations = []
